@@ -370,10 +370,15 @@ func c07Race() core.Outcome {
 		o.Class = "race-monitor:not-built"
 		return o
 	}
-	cmd := exec.Command(bin)
-	cmd.Env = append(os.Environ(), "GORACE=halt_on_error=1 exitcode=66")
+	cmd := exec.Command("timeout", "-s", "KILL", "600", bin)
+	cmd.Env = append(os.Environ(), "GORACE=halt_on_error=1 exitcode=66", "GOMEMLIMIT=8GiB")
 	out, err := cmd.CombinedOutput()
 	s := string(out)
+	if cmd.ProcessState != nil && cmd.ProcessState.ExitCode() == 137 {
+		o.Violation = "free-running concurrent compilations did not finish within 600 s (normal: 20 s): hang or runaway allocation"
+		o.Sig = "race-monitor-hang"
+		return o
+	}
 	if strings.Contains(s, "WARNING: DATA RACE") {
 		// signature: first sysl frame of the report
 		frame := ""
